@@ -48,6 +48,10 @@ M = [
  ("c19-tracker-not-purged", "C19", "src/sender/connections.rs", "            seq_tracker.remove_connection(conn_id);\n", ""),
  ("c19-selection-kept", "C19", "src/sender/connections.rs", "        *last_selected_idx = None;\n", ""),
  ("c20-send-await", "C20", "src/subscriptions.rs", "match entry.sender.try_send(line) {\n                    Ok(()) => {}", "match entry.sender.send(line).await.map_err(|e| mpsc::error::TrySendError::Closed(e.0)) {\n                    Ok(()) => {}"),
+ ("glue-no-timer-flush", "C01", "src/sender/mod.rs", "                        flush_all_batches(&mut connections, &conn_io).await;\n", "                        let _ = (&mut connections, &conn_io);\n"),
+ ("glue-flush-interval-40", "C01", "src/sender/mod.rs", "const BATCH_FLUSH_INTERVAL_MS: u64 = 15;", "const BATCH_FLUSH_INTERVAL_MS: u64 = 40;"),
+ ("glue-housekeeping-3s", "C14", "src/sender/mod.rs", "pub const HOUSEKEEPING_INTERVAL_MS: u64 = 1000;", "pub const HOUSEKEEPING_INTERVAL_MS: u64 = 3000;"),
+ ("glue-uplink-arm-no-handle", "C09", "src/sender/mod.rs", "                        if let Some(packet) = packet {\n                            handle_uplink_packet(", "                        if let Some(packet) = packet.filter(|p| p.bytes.len() != 44) {\n                            handle_uplink_packet("),
  ("c20-prune-inverted", "C20", "src/subscriptions.rs", "entries.retain(|e| !to_prune.contains(&e.id));", "entries.retain(|e| to_prune.contains(&e.id));"),
 ]
 
